@@ -67,11 +67,13 @@ pub struct Image {
     pub nblocks: u32,
     pub regions: Vec<Region>,
     pub blocks: HashMap<u32, Box<Blk>>,
+    /// copy-on-write parent: blocks not present here are read from it
+    pub base: Option<std::sync::Arc<Image>>,
 }
 
 impl Image {
     pub fn new(nblocks: u32) -> Image {
-        Image { nblocks, regions: Vec::new(), blocks: HashMap::new() }
+        Image { nblocks, regions: Vec::new(), blocks: HashMap::new(), base: None }
     }
     pub fn bg(&self, idx: u32) -> Bg {
         for r in &self.regions {
@@ -85,11 +87,18 @@ impl Image {
         if let Some(b) = self.blocks.get(&idx) {
             return **b;
         }
+        if let Some(base) = &self.base {
+            return base.read(idx);
+        }
         match self.bg(idx) {
             Bg::Zero => [0u8; 512],
             Bg::Canary => canary_block(idx),
             Bg::Junk => junk_block(idx),
         }
+    }
+    /// A cheap writable view on top of a frozen image.
+    pub fn overlay(base: &std::sync::Arc<Image>) -> Image {
+        Image { nblocks: base.nblocks, regions: Vec::new(), blocks: HashMap::new(), base: Some(base.clone()) }
     }
     pub fn write(&mut self, idx: u32, data: &Blk) {
         self.blocks.insert(idx, Box::new(*data));
